@@ -844,7 +844,14 @@ package lint
 //@   assigns \fresh
 //@ interface Registry.SetConfiguration
 //@   assigns \after(this)
-//@ func NewConfigFromFile [C15]
+//@ trace func NewConfigFromFile as CfgFile
+//@ func NewConfigFromFile [C15 C13]
 //@   trusted
 //@   assigns \fresh
 //@   ensures implies(result1 == nil, cfgOK(result0))
+// a profile is found exactly when one is registered under that name (C13: the tool's -profile option)
+//@ trace func GetProfile as Prof
+//@ func GetProfile [C13 C15]
+//@   nopanic
+//@   assigns \nothing
+//@   ensures ok == indom(profiles, name)
